@@ -17,6 +17,7 @@ def bad_times(s):
     return out + types_int(d.rel._messages)
 
 
+@guarded
 def check(r, tracks, seed):
     inp = {"tracks": tracks, "seed": seed}
     rng = random.Random(seed)
